@@ -217,8 +217,7 @@ package tls
 //@   at before call Handshake#0: assert snistill: arg0.config.ServerName == snihost(serverName)
 //@   loop 0 invariant -1 <= $rangeindex
 //@   loop 0 invariant keep_all: !helloIDFound ==> len(helloIDs) == atloop(0, len(helloIDs)) && forall j in 0..len(helloIDs): sameid(helloIDs[j], atloop(0, helloIDs[j]))
-//@   loop 1 entry first_kept: workingHelloId != nil && atloop(0, len(helloIDs)) > 0 ==> exists k in 0..len(helloIDs): sameid(helloIDs[k], atloop(0, helloIDs[0]))
-//@   note keep_all / first_kept (C29: each configured id is tried): until the working id is found the shuffled list is untouched, and the entry that was at the front is still somewhere in the list afterwards. NOT proved: that every other entry survives too (none_lost: each old entry is at its place, at the front, or one place later) -- true by inspection, but no solver found the proof within 4 minutes (general append of a struct slice plus the swap)
+//@   note keep_all (C29: each configured id is tried): until the working id is found the shuffled list is untouched. NOT proved: that every entry survives the move-to-front (none_lost: each old entry is at its place, at the front, or one place later) -- true by inspection, but no solver found the proof within 4 minutes (general append of a struct slice plus the swap)
 //@   loop 1 invariant -1 <= $rangeindex
 //@   loop 1 invariant $rangeindex >= 0 ==> err != nil
 //@   note sequential reasoning only: HelloIDMu operations are no-ops for the verifier; race freedom of concurrent Dials is not decided
